@@ -198,6 +198,13 @@ def r16_3(prog, rep):
     ok = len(ifs) == 1
     obl(rep, f, ifs[0] if ifs else f.node, "R16.3", ok, "offset: the remembered kind (constant / variable) selects the branch")
     if ok:
+        # every result comes out of one of the two branches: no return in front of the decision (a remembered training value
+        # handed back for a frame that "looks like" the training frame is not a recomputation)
+        cf_ = cfg_of(f)
+        early = [r_ for r_ in walk_local(f.node) if isinstance(r_, ast.Return) and not cf_.dominates(cf_.node_of(ifs[0]), cf_.node_of(r_))]
+        obl(rep, f, early[0] if early else ifs[0], "R16.3", not early, "offset: every return follows the constant / variable decision (no shortcut returning stored values)", "",
+            f"`{short(early[0], 60) if early else ''}` returns before the offset is recomputed from the new frame")
+    if ok:
         cb = [unparse(s) for s in ifs[0].body]
         obl(rep, f, ifs[0], "R16.3", _is_broadcast(ifs[0].body, (f"len({dm}.index)", f"{dm}.shape[0]", f"len({dm})"), "self.call.args[0].value"),
             "constant offset: the literal argument broadcast to the row count of the NEW frame", str(cb),
@@ -211,6 +218,11 @@ def r16_3(prog, rep):
     ifs = [i for i in walk_local(f.node) if isinstance(i, ast.If) and unparse(i.test) == "self._intermediate_data.trials_type == 'constant'"]
     ok = len(ifs) == 1
     obl(rep, f, ifs[0] if ifs else f.node, "R16.3", ok, "prop: the remembered trials type selects the branch")
+    if ok:
+        cf_ = cfg_of(f)
+        early = [r_ for r_ in walk_local(f.node) if isinstance(r_, ast.Return) and not cf_.dominates(cf_.node_of(ifs[0]), cf_.node_of(r_))]
+        obl(rep, f, early[0] if early else ifs[0], "R16.3", not early, "prop: every return follows the trials-type decision (no shortcut returning stored values)", "",
+            f"`{short(early[0], 60) if early else ''}` returns before the proportion is recomputed from the new frame")
     if ok:
         cb = [unparse(s) for s in ifs[0].body]
         obl(rep, f, ifs[0], "R16.3", _is_broadcast(ifs[0].body, (f"len({dm}.index)", f"{dm}.shape[0]", f"len({dm})"), "self.call.args[1].value"),
@@ -346,6 +358,27 @@ def r16_6(prog, rep):
     pr = prog.fn("transforms.proportion")
     rets = _rets(pr)
     obl(rep, pr, pr.node, "R16.6", len(rets) == 1 and unparse(rets[0].value) == "Proportion(successes, trials, trials_type)", "proportion() hands successes, trials to Proportion in order")
+    # "validates integer successes not exceeding trials": the validation must see the values the user gave - no conversion to an
+    # integer dtype of a column (3.5 successes would become 3 and pass) in proportion() or the package helpers it calls
+    from .shared import _int_like_dtype
+    scope_ = [pr]
+    for c_ in calls_in(pr.node):
+        kind_, q_ = prog.resolve(pr.module, (dotted(c_.func) or "").split(".")[0]) if dotted(c_.func) else (None, None)
+        if kind_ == "func" and q_ in prog.functions and prog.functions[q_].module is pr.module and prog.functions[q_] not in scope_:
+            scope_.append(prog.functions[q_])
+    narrowing = []
+    for f_ in scope_:
+        for c_ in calls_in(f_.node):
+            last = c_.func.attr if isinstance(c_.func, ast.Attribute) else (c_.func.id if isinstance(c_.func, ast.Name) else "")
+            dt = next((k.value for k in c_.keywords if k.arg == "dtype"), None)
+            if last in ("to_numpy", "asarray", "array", "astype", "asanyarray") and (
+                    _int_like_dtype(dt) == "int" or (last == "astype" and c_.args and _int_like_dtype(c_.args[0]) == "int")):
+                narrowing.append((f_, c_))
+            if isinstance(c_.func, ast.Name) and c_.func.id == "int" and c_.args and not isinstance(c_.args[0], ast.Constant) and f_ is not pr:
+                narrowing.append((f_, c_))
+    obl(rep, narrowing[0][0] if narrowing else pr, narrowing[0][1] if narrowing else pr.node, "R16.6", not narrowing,
+        "proportion() hands the column values to the validation unconverted (no cast to an integer dtype)", "",
+        f"`{short(narrowing[0][1], 60) if narrowing else ''}` truncates fractional values before Proportion checks that they are integers")
     from . import shared as _sh
     const = [s_ for s_ in ast.walk(pr.node) if isinstance(s_, ast.Assign) and unparse(s_.targets[0]) == "trials" and _sh.broadcast_of(s_.value) is not None]
     bc = _sh.broadcast_of(const[0].value) if len(const) == 1 else None
